@@ -78,7 +78,10 @@ def infer_dataframe_schema(df: pd.DataFrame) -> DataFrameSchema:
                 checks=parse_check_statistics(properties["checks"]),
                 nullable=properties["nullable"],
             )
-            for colname, properties in df_statistics["columns"].items()
+            # the column statistics are None for a dataframe without columns
+            for colname, properties in (
+                df_statistics["columns"] or {}
+            ).items()
         },
         index=_create_index(df_statistics["index"]),
         coerce=True,
